@@ -70,6 +70,12 @@ class LimitTables(Space):
         nev, nt, outs = 0, False, []
         for centre in ('peak', 'trough'):
             df = mk_table(sides, centre)
+            # row index as left by earlier steps: default, offset labels (a slice), duplicate labels (a concatenation)
+            ik = (sum(sides) + (centre == 'trough')) % 3
+            if ik == 1:
+                df.index = range(7, 7 + len(df))
+            elif ik == 2:
+                df.index = [i % 2 for i in range(len(df))]
             sc = sample_cols(centre)
             last, nxt = df[sc['last']].to_numpy(), df[sc['next']].to_numpy()
             for fs in self.fss:
@@ -79,7 +85,7 @@ class LimitTables(Space):
                         continue
                     for reset in ((True, False) if fs == 1 else (True,)):
                         sgn = {'site': 'limit_df', 'centre': centre, 'reset_indices': reset,
-                               'none': start is None or stop is None}
+                               'none': start is None or stop is None, 'index': ('default', 'offset', 'duplicate')[ik]}
                         nev += 1
                         try:
                             out = limit_df(df.copy(), fs, start=start, stop=stop, reset_indices=reset)
@@ -201,6 +207,10 @@ def eval_flatten(case):
         flat_l = [x for row in lab for x in row]
     if lab_kind == 'array':
         lab = np.array(lab)
+    elif lab_kind == 'array-F':
+        lab = np.asfortranarray(np.array(lab))        # same labels, column-major memory layout
+    elif lab_kind == 'array-T':
+        lab = np.array(lab).T.copy().T                  # a transposed view of the transposed grid
     elif lab_kind == 'flatlist':
         lab = list(flat_l)
     kw = {} if colname is None else {'column_name': colname}
@@ -232,7 +242,7 @@ def spaces(tier, seed):
     fl = []
     for shape in [(1,), (2,), (3,), (1, 1), (1, 2), (2, 1), (2, 2), (1, 3), (3, 1), (2, 3), (3, 2)]:
         for sizes in [(2,), (1, 3), (0, 2), (2, 0, 1)]:
-            for lk in ('list', 'array') + (('flatlist',) if len(shape) == 2 else ()):
+            for lk in ('list', 'array') + (('flatlist', 'array-F', 'array-T') if len(shape) == 2 else ()):
                 for cn in (None, 'grp'):
                     fl.append([list(shape), list(sizes), lk, cn])
     out.append(ListSpace('flatten_dfs', fl, eval_flatten, describe='1-D lists of 1..3 and 2-D lists up to 3x2 / 2x3 of tables '
